@@ -258,7 +258,9 @@ func compLz4c(o *out, seed uint64, tier string) {
 	// a block that is incompressible except for a late first match: the block compressor, given a
 	// destination of len(src) bytes by the frame layer, reports an error BY DESIGN and the block is stored
 	for i, fl := range []string{"-size 64K -c 1", "-size 64K", "-size 64K -l 5 -c 2"} {
-		c := &lz4cCase{data: fmt.Sprintf("g:%d,%d,%d", 4+i%2, 11+i, 65536+i*3000), flags: fl, stdio: i == 2, mode: 0644}
+		// (kind 4, seeds 196..198: 236..238 zero bytes after incompressible bytes in a 64 KiB block, the narrow range
+		// in which the fast compressor leaves through its error return rather than through (0, nil))
+		c := &lz4cCase{data: fmt.Sprintf("g:4,%d,%d", 196+i, 65536), flags: fl, stdio: i == 2, mode: 0644}
 		obs := runLz4c(c)
 		ilz := ""
 		for _, kv := range strings.Split(obs, " ") {
